@@ -17,7 +17,7 @@ int sm2_public_key_from_der(SM2_KEY *key, const uint8_t **in, size_t *inlen);
 #include "der.h"
 #include "sm2_ref.h"
 
-static uint8_t VAL[24][64]; static const char *VNAME[24]; static int NV, VVALID[24];
+static uint8_t VAL[32][64]; static const char *VNAME[32]; static int NV, VVALID[32];
 static void bn_be(uint8_t o[32], const BIGNUM *b) { sr_bn_to_bytes32(o, b); }
 static void addv(const char *n, const uint8_t xy[64]) { memcpy(VAL[NV], xy, 64); VNAME[NV] = n; VVALID[NV] = sr_xy_on_curve(xy); NV++; }
 static uint8_t GOOD[64], GOODD[32];
@@ -66,6 +66,11 @@ static void build_values(void) {
 			BN_bin2bn(c + 32, 32, y); BN_add(y, y, p); if (BN_num_bits(y) <= 256) { memcpy(v, c, 32); bn_be(v + 32, y); addv("small-x,y+p", v); } found++; } EC_POINT_free(P); ERR_clear_error(); }
 	/* a genuine curve point with a SMALL y (so that y+p still fits in 256 bits): solve x^3 - 3x + b - y^2 = 0 over F_p for y = 1,2,... (cubic with exactly one root, found as gcd(x^p - x, f)) */
 	for (unsigned ys = 1; ys < 40; ys++) { uint8_t c[64] = {0}; if (small_y_point(ys, c)) { if (!sr_xy_on_curve(c)) vh_harness_error("root finder produced an off-curve point"); addv("valid-small-y", c); memcpy(v, c, 64); BN_set_word(t, ys); BN_add(t, t, p); bn_be(v + 32, t); addv("small-y+p", v); memcpy(v, c, 64); bn_be(v + 32, p); BN_set_word(t, ys); BN_sub(t, p, t); bn_be(v + 32, t); addv("small-y-negated(valid)", v); break; } }
+	/* the OTHER points on the horizontal line through the good key: same y, x' = (-x +- sqrt(12 - 3x^2)) / 2 (they exist for about half of all points): valid points, and the nearest
+	   possible miss for anything that compares two points coordinate by coordinate */
+	{ BIGNUM *x = BN_new(), *sq = BN_new(), *h = BN_new(), *two = BN_new(); BN_CTX *c = sr_ctx(); BN_bin2bn(GOOD, 32, x); BN_mod_sqr(sq, x, p, c); BN_mul_word(sq, 3); BN_set_word(h, 12); BN_mod_sub(sq, h, sq, p, c); BIGNUM *rt = BN_mod_sqrt(NULL, sq, p, c); ERR_clear_error();
+	  if (rt) { BN_set_word(two, 2); BN_mod_inverse(two, two, p, c); for (int sg = 0; sg < 2; sg++) { if (sg) BN_sub(rt, p, rt); BN_mod_sub(h, rt, x, p, c); BN_mod_mul(h, h, two, p, c); memcpy(v, GOOD, 64); bn_be(v, h); if (sr_xy_on_curve(v) && memcmp(v, GOOD, 32)) addv(sg ? "same-y-other-x-2(valid)" : "same-y-other-x-1(valid)", v); } BN_free(rt); }
+	  else vh_obs("the good key has no same-y partner points"); BN_free(x); BN_free(sq); BN_free(h); BN_free(two); }
 	memset(v, 0, 64); v[31] = 1; addv("x=1,y=0", v); memset(v, 0, 64); v[63] = 1; addv("x=0,y=1", v);
 	BN_free(t); BN_free(y);
 }
